@@ -51,6 +51,20 @@ Lemma gauge_reset_breaks_lemma :
     finished c = true /\ get (c_mem c) (LCnt CPre) = W - 1.
 Proof. exists [L 0; L 1; L 0]. vm_compute. split; reflexivity. Qed.
 
+(* ---- archive() as found never counted a response it retried on or gave up on: max-retry 1, the
+   origin answers 503 then 200 to one item and 500, 500 to another - three 5xx responses served,
+   the 503 and 500 totals stay 0 (after the fix: 1 and 2) *)
+Lemma status_counts_orig_refuted_lemma :
+  let served := [attempts 2 [503; 200]; attempts 2 [500; 500]] in
+  let total calls k := rs_val (runseq (compile_op (ORateGetTotal (RKey k))) []
+                         (c_mem (exec_all [expand calls] [] (flat_map (fun _ => [L 0]) (List.seq 0 20))))) in
+  served = [[503; 200]; [500; 500]]
+  /\ finished (exec_all [expand (arch_calls_orig served)] [] (flat_map (fun _ => [L 0]) (List.seq 0 20))) = true
+  /\ total (arch_calls_orig served) 503 = VN 0 /\ total (arch_calls_orig served) 500 = VN 0
+  /\ total (arch_calls_orig served) 200 = VN 1
+  /\ total (arch_calls served) 503 = VN 1 /\ total (arch_calls served) 500 = VN 2.
+Proof. vm_compute. repeat split; reflexivity. Qed.
+
 (* ================================================================ non-vacuity *)
 (* a burst of three goroutines with increments, a key created concurrently, resets, per-second
    getters and a TUI read; wrap-around on the seeds total *)
